@@ -9,7 +9,8 @@ BOUNDS = {
     'quick': 'Pipe with W in {1, 2} workers (capacity W) and Buffered with buffer_size in {1, 2}; upstream effectively '
              'unbounded (longer than any run inside the step bound); consumer may stay idle from any point, or drop the '
              'iterator at any step; the processing function may panic at any item; K = 20 (Pipe) / 14 (Buffered) scheduler '
-             'steps; every interleaving',
+             'steps; every interleaving; num_threads = 0: Pipe::new / Pipe::next interpreted by MIRSE, '
+             'pulled - consumed <= 2 after every next() for n in [0, 4]',
     'thorough': 'additionally W = 3 and buffer_size = 3, K = 26',
 }
 OUTSIDE = ['buffer_size = 0 (rendezvous channel)', 'more workers', 'std Mutex / mpsc internals, the panic runtime (hook runs '
@@ -131,6 +132,10 @@ def custom_main(tier, seed, mir, repo, get_native, procs):
     incon, violations, lines = [], [], []
     results = run_jobs(jobs_for(tier, mir, repo, facts), procs)
     native = get_native()
+    # num_threads = 0: the unthreaded branch must be lazy (MIRSE sub-harness, lookahead claim only)
+    seq = run_unthreaded(tier, mir, repo, native, seed, procs, PROPERTY)
+    violations += seq['violations']
+    incon += seq['incon']
     for r in sorted(results, key=lambda r: r['name']):
         if r['result'] in ('unsupported', 'error', 'unknown'):
             incon.append('%s: %s' % (r['name'], r.get('error', r['result'])))
@@ -165,5 +170,6 @@ def custom_main(tier, seed, mir, repo, get_native, procs):
         'solver_seconds': round(sum(r.get('solve_s', 0) for r in results), 1), 'solver_queries': len(results),
         'bounds': BOUNDS[tier], 'outside_bounds': OUTSIDE, 'pipe_new_facts': {k: v for k, v in facts.items() if k != 'worker'},
         'inconclusive_reasons': incon[:6], 'exhaustive': not incon and not violations,
+        'unthreaded_branch': seq['coverage'],
     }
     return {'violations': violations, 'incon': incon, 'coverage': cov, 'lines': lines, 'assumptions': ASSUMPTIONS}
